@@ -7,10 +7,11 @@ import NrfModel.Drv.Net
 import NrfModel.Drv.Rf
 import NrfModel.Drv.NetS
 import NrfModel.Drv.Mesh
+import NrfModel.Drv.Ble
 
 open Nrf.Drv
 
-def allHandlers : List (String × Handler) := netHandlers ++ rfHandlers ++ netSHandlers ++ meshHandlers
+def allHandlers : List (String × Handler) := netHandlers ++ rfHandlers ++ netSHandlers ++ meshHandlers ++ bleHandlers
 
 def dispatch (line : String) : String :=
   match (line.splitOn " ").filter (· ≠ "") with
